@@ -5,6 +5,18 @@ SEG = "src/allmydata/immutable/downloader/segmentation.py"
 FN = "src/allmydata/immutable/filenode.py"
 LIT = "src/allmydata/immutable/literal.py"
 
+GUARD = ("        if not self._alive or not self._hungry:\n            return\n        if self._active_segnum is not None:\n"
+         "            return\n        self._fetch_next()\n")
+CANCEL_TAIL = ("        if self._active_segment and self._active_segment.segnum not in segnums:\n"
+               "            seg, self._active_segment = self._active_segment, None\n            seg.stop()\n"
+               "            self._start_new_segment()\n")
+STOP_OLD = ("    def stop(self):\n        # called by the Terminator at shutdown, mostly for tests\n        if self._active_segment:\n"
+            "            seg, self._active_segment = self._active_segment, None\n            seg.stop()\n        self._sharefinder.stop()\n")
+STOP_HELPER = ("    def _stop_active_segment(self):\n        if self._active_segment:\n"
+               "            seg, self._active_segment = self._active_segment, None\n            seg.stop()\n\n"
+               "    def stop(self):\n        # called by the Terminator at shutdown, mostly for tests\n"
+               "        self._stop_active_segment()\n        self._sharefinder.stop()\n")
+
 MUTANTS = [
     # ---- C04.1 isolation
     M("one-segmentation-per-node", NODE,
@@ -59,6 +71,67 @@ MUTANTS = [
       None),
     M("benign-cancel-filter-form", NODE,
       "                                  if t[2] != cancel]", "                                  if not (t[2] == cancel)]", None),
+    # ---- C04.2 through a same-class helper (inter-procedural stop analysis)
+    M("cancel-helper-unconditional", NODE, STOP_OLD, STOP_HELPER, "C04.2", edits=[(NODE, CANCEL_TAIL,
+      "        if self._active_segment:\n            self._stop_active_segment()\n            self._start_new_segment()\n")]),
+    M("cancel-stops-whole-node", NODE, CANCEL_TAIL,
+      "        if self._active_segment and self._active_segment.segnum not in segnums:\n            self.stop()\n"
+      "            self._start_new_segment()\n", "C04.2"),
+    # ---- C04.7 one outstanding segment request per read
+    M("outstanding-guard-folded-truthiness", SEG, GUARD,          # seeded C04-A
+      "        if not self._alive or not self._hungry or self._active_segnum:\n            return\n        self._fetch_next()\n", "C04.7"),
+    M("outstanding-guard-truthiness", SEG, "        if self._active_segnum is not None:\n            return\n",
+      "        if self._active_segnum:\n            return\n", "C04.7"),
+    M("outstanding-guard-dropped", SEG, "        if self._active_segnum is not None:\n            return\n", "", "C04.7"),
+    M("resume-bypasses-guard", SEG, "        eventually(self._maybe_fetch_next)\n", "        eventually(self._fetch_next)\n", "C04.7"),
+    M("request-not-recorded", SEG, "        self._active_segnum = wanted_segnum\n", "", "C04.7"),
+    M("request-recorded-unless-segment-0", SEG, "        self._active_segnum = wanted_segnum\n",
+      "        if wanted_segnum:\n            self._active_segnum = wanted_segnum\n", "C04.7"),
+    M("retire-only-on-success", SEG, "        d.addBoth(self._request_retired)\n", "        d.addCallback(self._request_retired)\n", "C04.7"),
+    M("retire-keeps-record", SEG, "    def _request_retired(self, res):\n        self._active_segnum = None\n",
+      "    def _request_retired(self, res):\n", "C04.7"),
+    M("retire-after-got-segment", SEG,
+      "        d.addBoth(self._request_retired)\n        d.addCallback(self._got_segment, wanted_segnum)\n",
+      "        d.addCallback(self._got_segment, wanted_segnum)\n        d.addBoth(self._request_retired)\n", "C04.7"),
+    M("pause-forgets-request", SEG, "        self._hungry = False\n        self._start_pause = now()\n",
+      "        self._hungry = False\n        self._active_segnum = None\n        self._start_pause = now()\n", "C04.7"),
+    M("benign-outstanding-guard-folded", SEG, GUARD,
+      "        if not self._alive or not self._hungry or self._active_segnum is not None:\n            return\n        self._fetch_next()\n",
+      None),
+    M("benign-outstanding-guard-not-is-none", SEG, "        if self._active_segnum is not None:\n            return\n",
+      "        idle = self._active_segnum is None\n        if not idle:\n            return\n", None),
+    M("benign-outstanding-guard-on-cancel-handle", SEG, "        if self._active_segnum is not None:\n            return\n",
+      "        if self._cancel_segment_request:\n            return\n", None),
+    M("benign-outstanding-guard-in-fetch-next", SEG, "        if self._active_segnum is not None:\n            return\n        self._fetch_next()\n",
+      "        self._fetch_next()\n", None, edits=[(SEG, "    def _fetch_next(self):\n",
+                                                    "    def _fetch_next(self):\n        if self._active_segnum is not None:\n            return\n")]),
+    M("benign-retire-split-in-two", SEG, "        d.addBoth(self._request_retired)\n",
+      "        d.addCallbacks(self._request_retired, self._request_retired)\n", None),
+    # ---- C04.8 the other reads go on after the active fetcher was retired
+    M("cancel-helper-loses-restart", NODE, STOP_OLD, STOP_HELPER, "C04.8", edits=[(NODE, CANCEL_TAIL,     # seeded C04-B
+      "        if self._active_segment and self._active_segment.segnum not in segnums:\n            self._stop_active_segment()\n")]),
+    M("cancel-no-restart", NODE, "            seg.stop()\n            self._start_new_segment()\n", "            seg.stop()\n", "C04.8"),
+    M("cancel-restart-before-reset", NODE, CANCEL_TAIL,
+      "        if self._active_segment and self._active_segment.segnum not in segnums:\n            self._start_new_segment()\n"
+      "            seg, self._active_segment = self._active_segment, None\n            seg.stop()\n", "C04.8"),
+    M("cancel-stops-without-reset", NODE, CANCEL_TAIL,
+      "        if self._active_segment and self._active_segment.segnum not in segnums:\n            self._active_segment.stop()\n"
+      "            self._start_new_segment()\n", "C04.8"),
+    M("cancel-restart-only-if-queue-was-empty", NODE, "            seg.stop()\n            self._start_new_segment()\n",
+      "            seg.stop()\n            if not segnums:\n                self._start_new_segment()\n", "C04.8"),
+    M("deliver-no-restart", NODE,
+      "            self._download_status.add_misc_event(\"process_block\", start, now())\n            self._start_new_segment()\n",
+      "            self._download_status.add_misc_event(\"process_block\", start, now())\n", "C04.8"),
+    M("fetch-failed-no-restart", NODE, "            eventually(self._deliver, d, c, f)\n        self._start_new_segment()\n",
+      "            eventually(self._deliver, d, c, f)\n", "C04.8"),
+    M("benign-cancel-helper-keeps-restart", NODE, STOP_OLD, STOP_HELPER, None, edits=[(NODE, CANCEL_TAIL,
+      "        if self._active_segment and self._active_segment.segnum not in segnums:\n            self._stop_active_segment()\n"
+      "            self._start_new_segment()\n")]),
+    M("benign-cancel-restart-next-turn", NODE, "            seg.stop()\n            self._start_new_segment()\n",
+      "            seg.stop()\n            eventually(self._start_new_segment)\n", None),
+    M("benign-cancel-restart-after-if", NODE, CANCEL_TAIL,
+      "        if self._active_segment and self._active_segment.segnum not in segnums:\n"
+      "            seg, self._active_segment = self._active_segment, None\n            seg.stop()\n        self._start_new_segment()\n", None),
     # ---- C04.3 clip
     M("clip-forgets-offset", NODE,
       "        size = max(0, min(size, self._verifycap.size-offset))", "        size = max(0, min(size, self._verifycap.size))", "C04.3"),
@@ -110,5 +183,6 @@ MUTANTS = [
       "        if size is None:\n            data = self.u.data[offset:]\n        else:\n            data = self.u.data[offset:offset+size]\n",
       "        if size is not None:\n            data = self.u.data[offset:size+offset]\n        else:\n            data = self.u.data[offset:]\n", None),
     # ---- vanished anchor
+    M("vanish-resume-producing", SEG, "    def resumeProducing(self):", "    def _resume_producing(self):", "ANALYSIS-ERROR"),
     M("vanish-cancel-request", NODE, "    def _cancel_request(self, cancel):", "    def _cancel_requestX(self, cancel):", "ANALYSIS-ERROR"),
 ]
